@@ -10,3 +10,4 @@ pub mod openraft {
     #[path = "/repo/octopii/src/openraft/storage.rs"] pub mod storage;
     #[path = "/repo/octopii/src/openraft/types.rs"] pub mod types;
 }
+pub mod nodebook;
